@@ -142,10 +142,13 @@ pub fn take_until_and_not<'a>(
                     i,
                     ErrorKind::TakeUntil,
                 ))),
-                (Some(offset), None) => {
+                // only an `end_tag` that is the start of a `however_tag` is skipped
+                (Some(end), Some(offset)) if end == offset => {
+                    recursive_until(i, index + offset + t2.len(), t1, t2)
+                }
+                (Some(offset), _) => {
                     Ok(i.take_split(index + offset)).map(|(rem, res)| (rem, res.into_inner()))
                 }
-                (Some(_), Some(offset)) => recursive_until(i, index + offset + 2, t1, t2),
             }
         }
         let res: ParserResult<'_, _> = recursive_until(i, 0, end_tag, however_tag);
